@@ -94,19 +94,20 @@ CheckDiv(e) ==
       okqr == Has(e, "divrem") /\ ~z
               /\ Lt2(e.divrem[1], n) /\ Lt2(e.divrem[2], n)
               /\ IsDivRem(a, d, e.divrem[1], e.divrem[2])
-      q == IF okqr THEN e.divrem[1] ELSE Zero
-      r == IF okqr THEN e.divrem[2] ELSE Zero
+      hasqr == Has(e, "divrem")
+      q == IF hasqr THEN e.divrem[1] ELSE Zero
+      r == IF hasqr THEN e.divrem[2] ELSE Zero
       nm == NextMultiple(q, r, d)
       nmfits == Lt2(nm, n)
-      V(f, v) == IF z THEN Panics(e, f) ELSE okqr /\ Eq(e, f, v)
+      V(f, v) == IF z THEN Panics(e, f) ELSE hasqr /\ Eq(e, f, v)
   IN [ divrem |-> IF z THEN Panics(e, "divrem") ELSE okqr,
-       cdiv |-> IF z THEN Eq(e, "cdiv", None) ELSE okqr /\ Eq(e, "cdiv", Some(q)),
-       crem |-> IF z THEN Eq(e, "crem", None) ELSE okqr /\ Eq(e, "crem", Some(r)),
+       cdiv |-> IF z THEN Eq(e, "cdiv", None) ELSE hasqr /\ Eq(e, "cdiv", Some(q)),
+       crem |-> IF z THEN Eq(e, "crem", None) ELSE hasqr /\ Eq(e, "crem", Some(r)),
        wdiv |-> V("wdiv", q), wrem |-> V("wrem", r),
        ceil |-> V("ceil", CeilOf(q, r)),
        cnmo |-> IF z THEN Eq(e, "cnmo", None)
-                ELSE okqr /\ Eq(e, "cnmo", IF nmfits THEN Some(nm) ELSE None),
-       nmo  |-> IF z \/ ~okqr \/ ~nmfits THEN Panics(e, "nmo") ELSE Eq(e, "nmo", nm),
+                ELSE hasqr /\ Eq(e, "cnmo", IF nmfits THEN Some(nm) ELSE None),
+       nmo  |-> IF z \/ ~nmfits THEN Panics(e, "nmo") ELSE hasqr /\ Eq(e, "nmo", nm),
        div_vv |-> V("div_vv", q), div_vr |-> V("div_vr", q), div_rv |-> V("div_rv", q),
        div_rr |-> V("div_rr", q), div_av |-> V("div_av", q), div_ar |-> V("div_ar", q),
        rem_vv |-> V("rem_vv", r), rem_vr |-> V("rem_vr", r), rem_rv |-> V("rem_rv", r),
